@@ -1,8 +1,10 @@
+use std::{cmp::Reverse, collections::VecDeque};
+
 use ckb_network::{CKBProtocolContext, PeerIndex};
 use ckb_types::{
     packed,
     prelude::*,
-    utilities::{merkle_mountain_range::VerifiableHeader, merkle_root, MerkleProof},
+    utilities::{merkle_mountain_range::VerifiableHeader, merkle_root},
 };
 use log::{debug, error};
 
@@ -179,16 +181,16 @@ impl<'a> SendTransactionsProofProcess<'a> {
                     return StatusCode::InvalidProof.with_context(errmsg);
                 }
                 let lemmas: Vec<packed::Byte32> = proof.lemmas().into_iter().collect();
-                let merkle_proof = MerkleProof::new(indices, lemmas);
-                match merkle_proof
-                    .root(
-                        &filtered_block
-                            .transactions()
-                            .into_iter()
-                            .map(|tx| tx.calc_tx_hash())
-                            .collect::<Vec<_>>(),
-                    )
-                    .map(|raw_transactions_root| {
+                match strict_merkle_proof_root(
+                    &indices,
+                    &lemmas,
+                    &filtered_block
+                        .transactions()
+                        .into_iter()
+                        .map(|tx| tx.calc_tx_hash())
+                        .collect::<Vec<_>>(),
+                )
+                .map(|raw_transactions_root| {
                         filtered_block.header().raw().transactions_root()
                             == merkle_root(&[raw_transactions_root, witnesses_root])
                     }) {
@@ -228,4 +230,57 @@ impl<'a> SendTransactionsProofProcess<'a> {
             .mark_fetching_txs_missing(&missing_tx_hashes);
         Status::ok()
     }
+}
+
+/// Calculates the root from a merkle proof (complete binary merkle tree) and the leaves, strictly.
+///
+/// It's the same algorithm as `MerkleProof::root`, but every node has to be merged with its
+/// sibling (another node or the next lemma) until the root: `MerkleProof::root` drops a node
+/// silently when it has no sibling and no lemma is left, so a leaf with a made-up index didn't
+/// contribute to the root at all and any transaction could be "proved" together with a real one.
+fn strict_merkle_proof_root(
+    indices: &[u32],
+    lemmas: &[packed::Byte32],
+    leaves: &[packed::Byte32],
+) -> Option<packed::Byte32> {
+    if leaves.len() != indices.len() || leaves.is_empty() {
+        return None;
+    }
+
+    let mut leaves = leaves.to_vec();
+    leaves.sort();
+
+    let mut pre = indices.iter().copied().zip(leaves).collect::<Vec<_>>();
+    pre.sort_by_key(|i| Reverse(i.0));
+
+    let mut queue: VecDeque<(u32, packed::Byte32)> = pre.into();
+    let mut lemmas_iter = lemmas.iter();
+
+    while let Some((index, node)) = queue.pop_front() {
+        if index == 0 {
+            // ensure that all lemmas and leaves are consumed
+            return if lemmas_iter.next().is_none() && queue.is_empty() {
+                Some(node)
+            } else {
+                None
+            };
+        }
+
+        let sibling_index = ((index + 1) ^ 1) - 1;
+        let sibling = match queue.front() {
+            Some((front, _)) if *front == sibling_index => queue.pop_front().map(|i| i.1),
+            _ => lemmas_iter.next().cloned(),
+        }?;
+
+        // An odd index is a left child.
+        let parent_node = if index & 1 == 1 {
+            merkle_root(&[node, sibling])
+        } else {
+            merkle_root(&[sibling, node])
+        };
+
+        queue.push_back(((index - 1) >> 1, parent_node));
+    }
+
+    None
 }
